@@ -208,6 +208,14 @@ func genC07(t *rapid.T) c07Case {
 			c.Steps = append(c.Steps[:at:at], append(pair, c.Steps[at:]...)...)
 		}
 	}
+	// the same message once more, right away, into a destination of its own (a retry): the two
+	// results must not share anything either
+	for k := rapid.IntRange(0, 2).Draw(t, "nrepeat"); k > 0 && len(c.Steps) > 0; k-- {
+		at := rapid.IntRange(0, len(c.Steps)-1).Draw(t, "repeatat")
+		if st := c.Steps[at]; st.Op == "decode" || st.Op == "decodebad" {
+			c.Steps = append(c.Steps[:at+1:at+1], append([]c07Step{st}, c.Steps[at+1:]...)...)
+		}
+	}
 	if rapid.IntRange(0, 3).Draw(t, "deepburst") == 0 {
 		burst := genDeepBurst(t)
 		at := rapid.IntRange(0, len(c.Steps)).Draw(t, "deepat")
@@ -446,6 +454,19 @@ func runC07(w *worker) func(c c07Case) *Failure {
 			if !ok {
 				failedBefore = true
 			}
+			// the caller owns what earlier calls returned: now and then it writes into the binaries of
+			// the oldest destination still kept; nobody else's result may notice (checked after the next step
+			// and at the end)
+			if i%3 == 2 && len(kept) > 1 {
+				k := &kept[0]
+				if lf := safely("overwriting the binaries of an earlier destination", func() {
+					if scribbleBinaries(k.s, k.dest.Elem()) > 0 {
+						k.hash = hashStr(core.CanonStruct(k.s, k.b.Lift(k.dest.Elem())))
+					}
+				}); lf != nil {
+					return lf
+				}
+			}
 			// (b) fresh-process differential: failing calls (whose n / partial destination the model
 			// leaves open) and a sample of the others
 			if (st.Fresh || (!ok && st.Op != "invalid")) && freshRuns < 4 {
@@ -459,6 +480,15 @@ func runC07(w *worker) func(c c07Case) *Failure {
 					return failf("history-dependent", "step %d (%s on pool type %d) returned %+v after %d earlier calls, but %+v when made first in a fresh process", i, st.Op, st.T, res, i, fr)
 				}
 				w.label("fresh-process-compared")
+			}
+		}
+		for _, k := range kept {
+			var h string
+			if lf := safely("reading an earlier destination", func() { h = hashStr(core.CanonStruct(k.s, k.b.Lift(k.dest.Elem()))) }); lf != nil {
+				return lf
+			}
+			if h != k.hash {
+				return failf("earlier-destination-changed", "at the end of the history the destination of the decode of step %d no longer reads as it did (after the caller wrote into the binaries of another, earlier destination)", k.step)
 			}
 		}
 		var ops []string
